@@ -121,6 +121,10 @@ def _inv_power(name, ps, fails):
     bb = ps.binbounds
     if bb is not None:
         bb = np.asarray(bb, dtype=float)
+        if nb != len(bb) + 1 or len(dv) != nb or len(kl) != nb:
+            fails.append(dict(case=f"{name}: {len(bb)} bounds declare {len(bb) + 1} bins, but the space has {nb} bins, {len(dv)} volumes and {len(kl)} k-lengths "
+                                   "(an empty bin must be refused, not dropped)", detail=""))
+            return
         for b in range(nb):
             lo = -np.inf if b == 0 else bb[b - 1]
             hi = np.inf if b == nb - 1 else bb[b]
@@ -168,6 +172,11 @@ def sec_invariants(chk):
                     fails.append(dict(case=f"{name}: useful_binbounds(logarithmic={logarithmic}, nbin={nbin}) is not repeatable", detail=f"{bb[:3]} vs {again[:3]}"))
             mid = 0.5 * (before[:-1] + before[1:])
             binnings["explicit(every second natural bound)"] = tuple(mid[::2])
+            # bounds that leave a bin empty -- in front, in the middle, at the end: refused, or (if accepted) all invariants hold
+            binnings["explicit(trailing bound above the largest k-length)"] = tuple(mid[:2]) + (float(before[-1]) * 1.5,)
+            binnings["explicit(trailing bound equal to the largest k-length)"] = tuple(mid[:2]) + (float(before[-1]),)
+            binnings["explicit(leading bound below the smallest k-length)"] = (-1.,) + tuple(mid[:2])
+            binnings["explicit(two bounds in one gap)"] = (float(mid[0]), float(0.5 * (mid[0] + before[1])), float(mid[1])) if len(mid) > 1 else (float(mid[0]),)
         for bn, bb in binnings.items():
             cases += 1
             try:
